@@ -84,7 +84,12 @@ pub struct WritePlan {
 pub enum Edit {
     Flip { pos: u32, bit: u8 },
     Subst { pos: u32, val: u8 },
-    ZeroRange { pos: u32, len: u32 },
+    ZeroRange {
+        pos: u32,
+        len: u32,
+        #[serde(default)]
+        fill: u8,
+    },
     DupRange { pos: u32, len: u32 },
     DropRange { pos: u32, len: u32 },
     Insert { pos: u32, bytes: Vec<u8> },
@@ -740,7 +745,17 @@ const CLASS_NAMES: &[&str] = &[
 const XML_OPS: &[&str] = &[
     "delete-element", "delete-closing-tag", "rename-element", "replace-text", "delete-attribute",
     "change-attribute", "duplicate-attribute", "duplicate-element", "swap-elements", "drop-last-token", "duplicate-first-token",
-    "truncate-text", "duplicate-as-other-type",
+    "truncate-text", "duplicate-as-other-type", "insert-markup",
+];
+
+/// Markup that a conforming XML parser accepts (or must reject cleanly) in the
+/// middle of a document: comments, processing instructions, CDATA, character
+/// and entity references, a doctype, a byte-order mark, stray closing tags.
+const XML_SNIPPETS: &[&str] = &[
+    "<!--c-->", "<!-- -- -->", "<?pi x?>", "<![CDATA[]]>", "<![CDATA[1]]>", "<![CDATA[ ]]>", "&amp;", "&#x41;", "&#49;", "&lt;", "&#xD;", "&#x110000;",
+    "<!DOCTYPE x>", "<!DOCTYPE x [<!ENTITY e \"1\">]>", "&e;", "\u{feff}", "<x/>", "<x>", "</x>", "]]>", "<![CDATA[", "<!--", "<?xml version=\"1.0\"?>", "\r\n", "\t",
+    "<Properties/>", "<Properties></Properties>", "<Item/>", "<Item class=\"Folder\" referent=\"RBX0\"/>", "<External>null</External>", "<Meta name=\"a\">b</Meta>", "<SharedStrings/>",
+    "<SharedString md5=\"AAAAAAAAAAAAAAAAAAAAAA==\">QQ==</SharedString>", "<null></null>", "<string name=\"Name\">x</string>",
 ];
 
 const XML_NAMES: &[&str] = &[
@@ -858,7 +873,7 @@ fn apply_xml_edit(file: &mut Vec<u8>, op: u8, which: u32, arg: u32) -> bool {
         return false;
     }
     let mut k = opens[which as usize % opens.len()];
-    if op % 13 == 3 {
+    if op % 14 == 3 {
         // Text replacement is aimed at leaf elements (the ones that carry a value).
         let leaves: Vec<usize> = opens
             .iter()
@@ -871,7 +886,7 @@ fn apply_xml_edit(file: &mut Vec<u8>, op: u8, which: u32, arg: u32) -> bool {
     }
     let t = tags[k].clone();
     let close = matching_close(&tags, k);
-    match op % 13 {
+    match op % 14 {
         0 => {
             // delete the whole element
             let end = close.map(|c| tags[c].end).unwrap_or(t.end);
@@ -933,7 +948,7 @@ fn apply_xml_edit(file: &mut Vec<u8>, op: u8, which: u32, arg: u32) -> bool {
                 return false;
             }
             let (a, vs, ae) = attrs[arg as usize % attrs.len()];
-            match op % 13 {
+            match op % 14 {
                 4 => {
                     file.drain(inner_start + a..inner_start + ae);
                 }
@@ -977,6 +992,18 @@ fn apply_xml_edit(file: &mut Vec<u8>, op: u8, which: u32, arg: u32) -> bool {
             }
             file.splice(end..end, copy);
         }
+        13 => {
+            let snip = XML_SNIPPETS[arg as usize % XML_SNIPPETS.len()].as_bytes();
+            let text_end = file[t.end..].iter().position(|&b| b == b'<').map(|p| t.end + p).unwrap_or(file.len());
+            let at = match (arg as usize / XML_SNIPPETS.len()) % 5 {
+                0 => t.end,
+                1 => t.start,
+                2 => close.map(|c| tags[c].start).unwrap_or(t.end),
+                3 => close.map(|c| tags[c].end).unwrap_or(t.end),
+                _ => t.end + (arg as usize / (XML_SNIPPETS.len() * 5)) % (text_end - t.end + 1),
+            };
+            file.splice(at..at, snip.iter().copied());
+        }
         9 | 10 | 11 => {
             // surgery on the whitespace-separated text that follows the opening tag
             let text_end = file[t.end..].iter().position(|&b| b == b'<').map(|p| t.end + p).unwrap_or(file.len());
@@ -984,7 +1011,7 @@ fn apply_xml_edit(file: &mut Vec<u8>, op: u8, which: u32, arg: u32) -> bool {
             if text.iter().all(|b| b.is_ascii_whitespace()) {
                 return false;
             }
-            let new: Vec<u8> = match op % 13 {
+            let new: Vec<u8> = match op % 14 {
                 9 => {
                     let trimmed_end = text.iter().rposition(|b| !b.is_ascii_whitespace()).map(|p| p + 1).unwrap_or(0);
                     let cut = text[..trimmed_end].iter().rposition(|b| b.is_ascii_whitespace()).unwrap_or(0);
@@ -1184,7 +1211,11 @@ impl IoSim {
                 pos,
                 val: *r.pick(&[0u8, 1, 0x7f, 0x80, 0xff, b'<', b'>', b'&', b'"', b' ']),
             },
-            2 => Edit::ZeroRange { pos, len: r.range(1, 24) as u32 },
+            2 => Edit::ZeroRange {
+                pos,
+                len: *r.pick(&[1u32, 2, 3, 4, 4, 8, 8, 12, 16, 24, 36]),
+                fill: *r.pick(&[0u8, 0, 0xff, 0xff, 0x7f, 0x80, 0xfe, 0x01]),
+            },
             3 => Edit::DupRange { pos, len: r.range(1, 64) as u32 },
             4 => Edit::DropRange { pos, len: r.range(1, 64) as u32 },
             5 => Edit::Insert { pos, bytes: r.pick(DICT).to_vec() },
@@ -1199,7 +1230,7 @@ impl IoSim {
             },
             9 => Edit::RandomTail { keep: pos, len: r.range(0, 64) as u32, seed: r.next_u64() >> 16 },
             10 => Edit::Xml {
-                op: r.weighted(&[4, 4, 4, 16, 4, 5, 4, 4, 4, 4, 4, 5, 5]) as u8,
+                op: r.weighted(&[4, 4, 4, 16, 4, 5, 4, 4, 4, 4, 4, 5, 5, 10]) as u8,
                 which: r.next_u64() as u32,
                 arg: r.next_u64() as u32,
             },
@@ -1345,11 +1376,11 @@ impl IoSim {
                 file[p] = *val;
                 ctx.count("fault_fired:subst");
             }
-            Edit::ZeroRange { pos, len: l } => {
+            Edit::ZeroRange { pos, len: l, fill } => {
                 let p = *pos as usize % len;
                 let e = (p + *l as usize).min(len);
                 for b in &mut file[p..e] {
-                    *b = 0;
+                    *b = *fill;
                 }
                 ctx.count("fault_fired:zero-range");
             }
